@@ -391,6 +391,8 @@ fn check(c: &Case, obs: &mut Obs) {
                 if !sp.is_empty() {
                     obs.fail("C29:requestor reports nothing accepted although the acceptor accepted contexts", format!("acceptor {sp:?}; requestor: {ce}"));
                 }
+            } else if ce.contains("pdu was too large") {
+                obs.fail("C29:strict side rejects an association PDU longer than its maximum P-DATA length", format!("requestor: {ce}; {cfg}"));
             } else {
                 obs.fail(format!("C29:acceptor holds an association the requestor does not{zero}"), format!("acceptor contexts {sp:?}; requestor: {ce}; {cfg}"));
             }
